@@ -14,8 +14,8 @@ use std::collections::{HashMap, VecDeque};
 
 static BUF: &str = "abcab";
 
-/// (start, end) of each key within BUF: "a","ab","abc","b","bc","c","abca","ca"
-const KEYS: [(usize, usize); 8] = [(0, 1), (0, 2), (0, 3), (1, 2), (1, 3), (2, 3), (0, 4), (2, 4)];
+/// (start, end) of each key within BUF: "a","ab","" (a zero-sized borrowed form),"abc","b","bc","c","abca"
+const KEYS: [(usize, usize); 8] = [(0, 1), (0, 2), (2, 2), (0, 3), (1, 2), (1, 3), (2, 3), (0, 4)];
 // note: BUF[3..4] == "a" and BUF[3..5] == "ab" are equal in content to keys 0
 // and 1 but live at another address: used as a third lookup form
 const ALT: [(usize, usize); 2] = [(3, 4), (3, 5)];
